@@ -34,9 +34,14 @@ def check(ctx):
     ev = ctx.exec('pardot', cases)
     ctx.validate('Trace_ParDot', ev, cases, 'pardot', key=lambda e: (e['op'], e['len'], e['nt'], e.get('mode'), e.get('phase'), e['r1']))
     pairs, apairs, short, maxnt, avail = set(), set(), 0, 0, 0
+    scarce = [0, 0, 0]   # events, calls that returned no value, calls that returned a value
     with open(ev) as f:
         for line in f:
             e = json.loads(line)
+            if e['op'] == 'pardot_s':
+                scarce[0] += 1
+                scarce[1 if not e['returned'] else 2] += 1
+                continue
             avail = e['avail']
             maxnt = max(maxnt, e['nt'])
             if e['len'] <= 200 and e['op'] == 'pardot':
@@ -48,12 +53,16 @@ def check(ctx):
     full = len([1 for p in pairs if 1 <= p[1] <= 16])
     ctx.notes.append('distinct (length 0..200, observed worker count) pairs executed on integer data: %d of 3216; largest observed worker count %d; CPUs available %d' % (full, maxnt, avail))
     ctx.notes.append('aliased calls x.dot_f64(&x): %d distinct (length 0..200, worker count) pairs on integer data' % len(apairs))
+    ncase = sum(1 for l in open(cases) if '"scarce"' in l)
+    ctx.notes.append('thread shortage (child processes with RLIMIT_AS = current size + 1..17 MiB): %d cases, %d calls with a verdict, %d of them failed to create threads (panic, no value), %d returned a value' % (ncase, scarce[0], scarce[1], scarce[2]))
+    if scarce[1] < 3:
+        ctx.assumptions.append('the address-space limit did not provoke thread-creation failures on this machine: the thread-shortage family was vacuous in this run')
     if short:
         ctx.assumptions.append('%d runs observed a worker count different from the requested one (fewer CPUs than 16 available): worker counts above %d were not exercised on the real code' % (short, maxnt))
     if full == 3216:
         ctx.exhaustive_parts.append('real code: every length 0..200 x every worker count 1..16 (3216 pairs), three repetitions each')
     return ctx.finish(
         rule='cases: every (length 0..200, worker count 1..16) pair on integer data (x3 data seeds in thorough), each followed by the ALIASED call x.dot_f64(&x) / x.dot(&x) on the same object (exact sum of squares; bit-identical to the two-object call x.dot_f64(&x.clone()), also on float data); per worker count ~11-39 lengths around the worker count each under busy-loop load, under a narrower affinity '
-             'than at the first call, and with general float data; random lengths up to 10^5; overflowing sums of strictly positive finite data (every product finite, two or more of about 1e308, placed everywhere / in the first / middle / last chunk only / one at each end so that only the total overflows; x = y and x != y) for every worker count: three repetitions, sequential dot and aliased calls must all be +inf bit for bit. Signed-zero families on exact data (all products -0.0 / all +0.0 / mixed / one non-zero product among them, zeros on either operand) for every worker count: repetitions, dot and aliased calls compared as bit patterns with +0.0 (or the one product). One event per run. distinct = distinct (kind, length, observed worker count, mode, phase, bit pattern).',
+             'than at the first call, and with general float data; random lengths up to 10^5; overflowing sums of strictly positive finite data (every product finite, two or more of about 1e308, placed everywhere / in the first / middle / last chunk only / one at each end so that only the total overflows; x = y and x != y) for every worker count: three repetitions, sequential dot and aliased calls must all be +inf bit for bit. Signed-zero families on exact data (all products -0.0 / all +0.0 / mixed / one non-zero product among them, zeros on either operand) for every worker count: repetitions, dot and aliased calls compared as bit patterns with +0.0 (or the one product). Thread shortage: child processes whose address space is limited to the current size + 1/3/5/9/17 MiB (everything pre-allocated before, limit restored after) call dot_f64 twice; a child that dies gives no event and no verdict; demanded: a value that is returned equals the sequential product bit for bit (a panic returns no value). One event per run. distinct = distinct (kind, length, observed worker count, mode, phase, bit pattern).',
         trusted=['num_cpus::get() observed in-process = worker count used by the call', 'harness projection of f64 to bit pattern and integer', 'TLC', 'double-double reference (general data only)'],
         extra=dict(pairs_covered=full, cpus_available=avail))
